@@ -1,0 +1,8 @@
+//go:build !verif
+// +build !verif
+
+package subscribe
+
+// verifApplied is a verification hook point; it does nothing unless the
+// package is built with the tag "verif" (see verif_hooks.go).
+func verifApplied(kind, key string, notifier INotifier) {}
